@@ -65,6 +65,7 @@ def verify(name, tier="quick", run_tests=True, keep=False):
             res["violation_lines"] = vio[:5]
             res["detected"] = rc == 1 and bool(vio)
             res["with_failing_input"] = any("no-failing-input-found" not in l for l in vio)
+            res["false_alarm"] = bool(res["with_failing_input"]) if SEEDED.name == "rewrites" else None
             res["check_tail"] = out[-400:]
             # keep the first replay's headline for the record
             for l in vio[:1]:
@@ -86,7 +87,13 @@ def verify(name, tier="quick", run_tests=True, keep=False):
 
 
 def main():
+    global SEEDED
     a = sys.argv[1:]
+    if "--rewrites" in a:
+        # property-PRESERVING rewrites (false-alarm tests) live in /verif/rewrites/<name>/ : the demo must pass on both
+        # trees and ./check must not produce a failing input (exit 0, or exit 1 with no-failing-input-found only)
+        a.remove("--rewrites")
+        SEEDED = ROOT / "rewrites"
     tier = "quick"
     if "--tier" in a:
         i = a.index("--tier")
@@ -99,6 +106,7 @@ def main():
         pid, src, name = a[1], Path(a[2]), a[3]
         d = SEEDED / name
         d.mkdir(parents=True, exist_ok=True)
+        SEEDED.mkdir(exist_ok=True)
         for f in ("patch.diff", "demo.py", "notes.md"):
             if (src / f).exists():
                 shutil.copy(src / f, d / f)
